@@ -19,8 +19,8 @@ Definition modelled_sites : list map_range := [
   MR "schemahcl/schemahcl.go" "State.toAttrs" 1 "toAttrs_perm" Sens 1 1;
   MR "sql/internal/specutil/convert.go" "Scan" 1 "Scan_link_perm" Sens 0 0;
   MR "sql/internal/specutil/convert.go" "Scan" 2 "Scan_link_perm" Sens 0 0;
-  MR "sql/internal/specutil/spec.go" "QualifyObjects" 1 "QualifyObjects_outer_perm_partial" Sens 0 0;
-  MR "sql/internal/specutil/spec.go" "QualifyObjects" 2 "QualifyObjects_inner_perm_partial" Sens 0 0;
+  MR "sql/internal/specutil/spec.go" "QualifyObjects" 1 "QualifyProofs.QualifyObjects_over_spec (outer); QualifyObjects_outer_perm_partial" Sens 0 0;
+  MR "sql/internal/specutil/spec.go" "QualifyObjects" 2 "QualifyProofs.QualifyObjects_over_spec (inner); QualifyObjects_inner_perm_partial" Sens 0 0;
   MR "sql/internal/sqlx/plan.go" "CheckChangesScope" 1 "CheckChangesScope_names_perm" SortedAfter 1 1;
   MR "sql/internal/sqlx/plan.go" "byKeys" 1 "byKeys_perm, sortMap_perm" SortedAfter 1 1;
   MR "sql/migrate/dir.go" "MemDir.Close" 1 "MemDir_Close_perm" Sens 0 0;
